@@ -1,0 +1,35 @@
+//go:build verif
+
+package mock
+
+import (
+	"time"
+
+	"github.com/zenon-network/go-zenon/common"
+	"github.com/zenon-network/go-zenon/consensus"
+)
+
+// VerifInsertMomentumSkipping produces the next momentum after leaving `skipped` producer slots empty
+// (InsertNewMomentum always fills the very next slot). Verification harness only.
+func VerifInsertMomentumSkipping(z MockZenon, skipped int) {
+	zenon := z.(*mockZenon)
+	store := zenon.chain.GetFrontierMomentumStore()
+	previousMomentum, err := store.GetFrontierMomentum()
+	common.DealWithErr(err)
+	t := previousMomentum.Timestamp.Add(time.Second * 10 * time.Duration(1+skipped))
+	expected, err := zenon.consensus.GetMomentumProducer(t)
+	common.DealWithErr(err)
+	if expected == nil {
+		panic("nil expected")
+	}
+	for _, pillarE := range zenon.pillars {
+		if *pillarE.GetCoinBase() == *expected {
+			pillarE.Process(consensus.ProducerEvent{
+				Producer:  *expected,
+				StartTime: t,
+				EndTime:   t.Add(time.Second * 10),
+				Name:      "",
+			}).Wait()
+		}
+	}
+}
